@@ -35,6 +35,14 @@ type Frame struct {
 	Loops  *loopInfo
 	// havocked loops (by header index): header was cut with an invariant
 	Cut map[int]bool
+	Pending *pendingCut
+}
+
+type pendingCut struct {
+	ord  int
+	spec *LoopSpec
+	back bool
+	hdr  *ssa.BasicBlock
 }
 
 type nameRef struct {
@@ -534,6 +542,13 @@ func (ex *Exec) elemTerm(v Val) *Term {
 			return IntC(0)
 		}
 	}
+	if _, ok := v.(SliceV); ok {
+		// slices stored as elements of a slice ([][]byte): identity only, contents are not tracked
+		return ex.fresh("elemid", IntSort)
+	}
+	if _, ok := v.(IfaceV); ok {
+		return ex.fresh("elemid", IntSort)
+	}
 	ex.reject("cannot store value %s into an array region", valString(v))
 	return nil
 }
@@ -674,7 +689,7 @@ func (ex *Exec) globalCell(st *State, name string, t types.Type) *Cell {
 				bi, _ := newBig(ex.P.Consts[name])
 				ex.Assumes = append(ex.Assumes, Eq(Select(Sym("heap0", ArraySort(IntSort, IntSort)), IntC(int64(id))), IntBig(bi)))
 			}
-		} else if cv, ok := ex.P.Consts[name]; ok {
+		} else if cv, ok := ex.P.Consts[name]; ok && isIntType(t) && isDecimal(cv) {
 			bi, _ := new(big.Int).SetString(cv, 10)
 			st.Cells[c] = Scalar{ex.intConst(bi, t)}
 		} else {
@@ -682,6 +697,22 @@ func (ex *Exec) globalCell(st *State, name string, t types.Type) *Cell {
 			save := ex.Inputs
 			gv := ex.symValNamed(st, "g!"+shortName(name), t)
 			ex.Inputs = save
+			if iv, ok := gv.(IfaceV); ok {
+				// interface-typed globals (error values): nil-ness read from the real initialisers
+				if cv, ok := ex.P.Consts[name]; ok {
+					if ex.constSeen == nil {
+						ex.constSeen = map[string]bool{}
+					}
+					if !ex.constSeen[name] {
+						ex.constSeen[name] = true
+						if cv == "nil" {
+							ex.Assumes = append(ex.Assumes, Eq(iv.Kind, IntC(0)))
+						} else {
+							ex.Assumes = append(ex.Assumes, Neq(iv.Kind, IntC(0)))
+						}
+					}
+				}
+			}
 			// structs of integers whose field values were read from the real initialisers
 			if sv, ok := gv.(StructV); ok {
 				stt := sv.Typ.Underlying().(*types.Struct)
@@ -750,6 +781,13 @@ func (ex *Exec) Run(st *State) {
 				}
 			}
 			fr.Idx = n
+			if fr.Pending != nil {
+				pc := fr.Pending
+				fr.Pending = nil
+				if ex.loopCutAfterPhis(st, fr, pc) {
+					return
+				}
+			}
 		}
 		if fr.Idx >= len(fr.Block.Instrs) {
 			ex.reject("fell off block")
@@ -1690,6 +1728,9 @@ func (ex *Exec) makeSlice(st *State, fr *Frame, x *ssa.MakeSlice) Val {
 	site := ex.siteName(fr, x, "make")
 	ex.safety(st, "make", site, And(ex.geZero(ln), ex.le(ln, cp), ex.le(cp, ex.maxLen())))
 	r := ex.newRegion("make", elem, -1)
+	if cp.IsConst() && cp.Val.IsInt64() && cp.Val.Int64() <= 64 {
+		r.FixedLen = cp.Val.Int64()
+	}
 	st.Mem[r] = ex.zeroArray(elem)
 	return SliceV{Elem: elem, Region: r, Off: ex.idxConst(0), Len: ln, Cap: cp}
 }
@@ -1755,4 +1796,14 @@ func naturalLoop(header, latch *ssa.BasicBlock) []*ssa.BasicBlock {
 		}
 	}
 	return out
+}
+
+func isIntType(t types.Type) bool {
+	_, _, ok := intInfo(t)
+	return ok
+}
+
+func isDecimal(s string) bool {
+	_, ok := new(big.Int).SetString(s, 10)
+	return ok
 }
